@@ -2,32 +2,36 @@
   C15, sequences within a bar — whatever buys and sells (accepted or rejected) a strategy issues between two
   refreshes of the book, no level is ever drawn below zero, prices and level count never change, and each
   accepted order lowers the displayed sizes by exactly what it filled (exact arithmetic; book sides with
-  distinct prices and non-negative sizes, as the data files have them).
+  non-negative sizes — they may be unsorted and repeat a price, orders are matched against the normalised side).
 -/
 import Proofs.C15
 import Proofs.Lemmas.DeribitInv
 namespace Demeter
 open Demeter.Deribit
 
-/-- **no level is overdrawn by one order**: after an accepted buy every ask still shows a non-negative size,
-    which is the old size minus what the fills took at that price -/
+/-- **no level is overdrawn by one order**: after an accepted buy the asks are the normalised side (best first, one
+    level per price) minus the fills; every level still shows a non-negative size, which is the old size minus what the
+    fills took at that price — and the old size of a level is the total the raw data displays at that price -/
 theorem C15_buy_never_overdraws (c : TokenCfg) (s s' : DState) (r : Req) (fills : List Fill) (fee : Rat)
     (hb : BookInv s.book) (h : buy DCtx.exact c s r = (.ok (.trade fills fee), s')) :
     ∃ ins, findInstr s.book r.name = some ins ∧
-      s'.book = setAsks s.book r.name (newOrderList DCtx.exact ins.asks fills) ∧
-      (newOrderList DCtx.exact ins.asks fills).map (·.size) = ins.asks.map (fun l => l.size - taken fills l.price) ∧
-      (∀ l ∈ ins.asks, taken fills l.price ≤ l.size) := by
+      s'.book = setAsks s.book r.name (newOrderList DCtx.exact (normSide DCtx.exact true ins.asks) fills) ∧
+      (newOrderList DCtx.exact (normSide DCtx.exact true ins.asks) fills).map (·.size) =
+        (normSide DCtx.exact true ins.asks).map (fun l => l.size - taken fills l.price) ∧
+      (∀ l ∈ normSide DCtx.exact true ins.asks, taken fills l.price ≤ l.size ∧ l.size = rawAt ins.asks l.price) := by
   obtain ⟨ins, hfind, hbook⟩ := C15_buy_book DCtx.exact c s s' r fills fee h
-  have hside := (hb ins (findInstr_mem hfind)).1
-  have hsizes := newOrderList_sizes ins.asks fills hside.1
+  have hraw := (hb ins (findInstr_mem hfind)).1
+  have hside : SideOk (normSide DCtx.exact true ins.asks) := sideOk_normSide hraw
+  have hsizes := newOrderList_sizes _ fills hside.1
   refine ⟨ins, hfind, hbook, hsizes, ?_⟩
   -- the new book satisfies the invariant, so every new size is non-negative
   have hinv : BookInv s'.book := by
     have := step_bookInv c s (.buy r) hb
     simpa [step, h] using this
   intro l hl
-  have hnew : SideOk (newOrderList DCtx.exact ins.asks fills) := by
-    have hmem : ({ ins with asks := newOrderList DCtx.exact ins.asks fills } : Instr) ∈ s'.book := by
+  refine ⟨?_, normSide_size true ins.asks l hl⟩
+  have hnew : ∀ x ∈ newOrderList DCtx.exact (normSide DCtx.exact true ins.asks) fills, 0 ≤ x.size := by
+    have hmem : ({ ins with asks := newOrderList DCtx.exact (normSide DCtx.exact true ins.asks) fills } : Instr) ∈ s'.book := by
       rw [hbook]
       unfold setAsks
       apply List.mem_map.mpr
@@ -36,15 +40,15 @@ theorem C15_buy_never_overdraws (c : TokenCfg) (s s' : DState) (r : Req) (fills 
         have := List.find?_some hfind; simpa using this
       simp [hname]
     exact (hinv _ hmem).1
-  have hx : l.size - taken fills l.price ∈ (newOrderList DCtx.exact ins.asks fills).map (·.size) := by
+  have hx : l.size - taken fills l.price ∈ (newOrderList DCtx.exact (normSide DCtx.exact true ins.asks) fills).map (·.size) := by
     rw [hsizes]; exact List.mem_map.mpr ⟨l, hl, rfl⟩
   obtain ⟨l', hl', hs⟩ := List.mem_map.mp hx
-  have := hnew.2 l' hl'
+  have := hnew l' hl'
   rw [hs] at this
   linarith
 
 /-- **fills shrink the visible book until it is next refreshed, and never below zero**: along any sequence of
-    operations inside a bar the book keeps distinct prices and non-negative sizes -/
+    operations inside a bar the book keeps non-negative sizes (the raw sides may be unsorted and repeat prices) -/
 theorem C15_levels_never_overdrawn_in_a_bar (c : TokenCfg) (ops : List Op) (s : DState) (hb : BookInv s.book) :
     BookInv (runOps DCtx.exact c s ops).book ∧ BookNonneg (runOps DCtx.exact c s ops).book :=
   ⟨runOps_bookInv c ops s hb, bookInv_nonneg (runOps_bookInv c ops s hb)⟩
@@ -63,7 +67,7 @@ example : BookInv Deribit.exState.book := by
   intro i hi
   simp only [Deribit.exState, List.mem_singleton] at hi
   subst hi
-  refine ⟨⟨by unfold PricesNodup; decide +kernel, ?_⟩, ⟨by unfold PricesNodup; decide +kernel, ?_⟩⟩ <;>
+  refine ⟨?_, ?_⟩ <;>
     (intro l hl; simp only [Deribit.exInstr, List.mem_cons, List.not_mem_nil, or_false] at hl; rcases hl with rfl | rfl | rfl <;> norm_num)
 example : ((runOps DCtx.exact ethCfg Deribit.exState
       [.buy (Deribit.exReq (19 / 2) none), .buy (Deribit.exReq 601 none)]).book.map (fun i => i.asks.map (·.size))) = [[0, 0, 196]] := by
